@@ -74,6 +74,15 @@ def replay(rec, case):
     i = case["input"]
     if "bban" in i:
         check_rebuild(rec, i["cc"], i["bban"])
+    elif i["how"].endswith("|country-code-spelling"):
+        from ..lib import BBAN
+        a = i["args"]
+        sp = a["country_code"]
+        ne = {k: a[k] for k in ("bank_code", "branch_code", "account_code") if a.get(k)}
+        fn = {"generate": lambda: IBAN.generate(sp, bank_code=a["bank_code"], account_code=a["account_code"], branch_code=a["branch_code"]),
+              "from_components": lambda: IBAN.from_bban(i["cc"], str(BBAN.from_components(sp, **ne))),
+              "random": lambda: IBAN.random(sp, random=Random(a["seed"]), use_registry=a.get("use_registry", True))}[i["how"].split("|")[0]]
+        check_built(rec, i["cc"], i["how"], a, fn)
     elif i["how"] == "from_components+ncd":
         from ..lib import BBAN
         a = i["args"]
@@ -136,6 +145,23 @@ def shard_field(arg):
             res = check_built(rec, cc, "from_components+ncd", args,
                               lambda: IBAN.from_bban(cc, BBAN.from_components(cc, **args)))
             rec.case(f"from_components-ncd-{res}", (cc, tuple(args.values())))
+    # other spellings of the country code (lower case, mixed case, padded): whether the library declines them or takes them,
+    # what it builds is nationally valid all the same
+    for sp in (cc.lower(), cc[0] + cc[1].lower(), " " + cc, cc + " ", cc.lower() + "\t"):
+        for k in range(6 if tier == "quick" else 60):
+            vals = {}
+            for name in ("bank_code", "branch_code", "account_code"):
+                a, e, cl = fi[name]
+                vals[name] = conforming(rng, cl, e - a) if e - a else ""
+            ne = {k_: v for k_, v in vals.items() if v}
+            sd = rng.randrange(2 ** 31)
+            for how, fn in (("generate", lambda: IBAN.generate(sp, bank_code=vals["bank_code"], account_code=vals["account_code"],
+                                                               branch_code=vals["branch_code"])),
+                            ("from_components", lambda: IBAN.from_bban(cc, str(BBAN.from_components(sp, **ne)))),
+                            ("random", lambda: IBAN.random(sp, random=random.Random(sd), use_registry=bool(k % 2)))):
+                res = check_built(rec, cc, how + "|country-code-spelling", {"country_code": sp, **vals, "seed": sd, "use_registry": bool(k % 2)}, fn)
+                rec.case(f"cc-spelling-{res}", (cc, sp, how, k))
+                rec.classes["cc-spelling"] += 1
     if ok == 0:
         raise HarnessError(f"{cc}: generate never succeeded; (a) would be vacuous")
     rec.classes[f"generate-success-{cc}"] = ok
@@ -191,5 +217,5 @@ def run(ctx):
     ctx.extra["random_success"] = {cc: ctx.rec.classes.get(f"random-success-{cc}", 0) for cc in onat.FIELD}
     from ._configs import stage as _config_stage
     _config_stage(ctx, ['national', 'generate'])
-    ctx.require_classes("from_components-ncd-ok", "generate-ok", "random-ok", "rebuild-rich", "rebuild",
+    ctx.require_classes("cc-spelling", "from_components-ncd-ok", "generate-ok", "random-ok", "rebuild-rich", "rebuild",
                         *[f"random-success-{cc}" for cc in onat.FIELD])
